@@ -91,6 +91,20 @@ def independent_errors(model, extra, row, space, names):
     return eq, bd
 
 
+def documented_drift(sampler, row, eq, bd, tol):
+    """Proves the recorded mechanism for one sample: nothing but the equality residual is
+    off, it is off by a small factor (<= 100 x tolerance: the residual tolerated on the
+    running centre times one step length), and the sampler's own validate() - the filter
+    the documentation tells users to apply - flags exactly this sample as invalid."""
+    if sampler is None or bd > 2 * tol or eq > 100 * tol:
+        return False
+    try:
+        code = sampler.validate(np.atleast_2d(row))[0]
+    except Exception:
+        return False
+    return code != "v"
+
+
 def free_dimensions(model):
     P = oracles.Problem(model)
     dims = 0
@@ -193,6 +207,13 @@ def run_model(acc, rng, model, extra, ident0, sig):
             if eq > 2 * tol or bd > 2 * tol:
                 worst = (i, eq, bd)
                 break
+        if worst is not None and worst[1] > 2 * tol and documented_drift(sampler, arr[worst[0]], worst[1], worst[2], tol):
+            acc.violation(
+                f"C16/{method}/equality-residual-slightly-above-tolerance/flagged-by-validate",
+                f"sample {worst[0]}: equality residual {worst[1]:.3g} (tolerance {tol}), bounds fine; validate() flags it",
+                dict(ident, row=worst[0], equality_residual=worst[1]),
+            )
+            continue
         if worst is not None:
             kind = "steady-state-or-equality" if worst[1] > 2 * tol else "bound-or-inequality"
             acc.violation(
@@ -234,6 +255,13 @@ def run_model(acc, rng, model, extra, ident0, sig):
                             eq, bd = independent_errors(model, extra, arrb[i], space, list(dfb.columns))
                             acc.count("samples_checked")
                             if eq > 2 * tol or bd > 2 * tol:
+                                if documented_drift(sampler, arrb[i], eq, bd, tol):
+                                    acc.violation(
+                                        f"C16/{method}/equality-residual-slightly-above-tolerance/flagged-by-validate",
+                                        f"draw {rep + 2} on the same sampler, sample {i}: equality residual {eq:.3g} (tolerance {tol}), bounds fine; validate() flags it",
+                                        dict(ident, draw=rep + 2, row=i, equality_residual=eq),
+                                    )
+                                    continue
                                 again_bad = (rep + 2, i, eq, bd)
                                 break
                         if again_bad:
@@ -276,7 +304,42 @@ def run_model(acc, rng, model, extra, ident0, sig):
         acc.violation("C16/model-modified", f"sampling modified the model: {d[0]}", dict(ident0, diffs=d[:5]))
 
 
+def run_probe(pr, acc):
+    """Committed case for the recorded drift finding: fixed recipe, sampler settings and
+    number of draws on one sampler object."""
+    from cobra.sampling import ACHRSampler, OptGPSampler
+
+    with warnings.catch_warnings():
+        warnings.simplefilter("ignore")
+        model = gen.build(pr["recipe"])
+        a = pr["args"]
+        tol = model.tolerance
+        if a["method"] == "achr":
+            sampler = ACHRSampler(model, thinning=a["thinning"], seed=a["seed"])
+        else:
+            sampler = OptGPSampler(model, processes=a["processes"], thinning=a["thinning"], seed=a["seed"])
+        for d in range(a["draws"]):
+            df = sampler.sample(a["n"], fluxes=(a["space"] == "fluxes"))
+            arr = df.to_numpy()
+            for i in range(len(arr)):
+                eq, bd = independent_errors(model, [], arr[i], a["space"], list(df.columns))
+                acc.count("samples_checked")
+                if eq > 2 * tol or bd > 2 * tol:
+                    acc.ev()
+                    if documented_drift(sampler, arr[i], eq, bd, tol):
+                        acc.violation(f"C16/{a['method']}/equality-residual-slightly-above-tolerance/flagged-by-validate", f"draw {d + 1}, sample {i}: equality residual {eq:.3g} (tolerance {tol}), bounds fine; validate() flags it", {"probe": pr["name"], "draw": d + 1, "row": i})
+                    else:
+                        acc.violation(f"C16/{a['method']}/infeasible-sample/" + ("steady-state-or-equality" if eq > 2 * tol else "bound-or-inequality"), f"draw {d + 1}, sample {i}: equality residual {eq:.3g}, bound violation {bd:.3g}", {"probe": pr["name"]})
+                    return
+    acc.ev()
+    acc.count("probes_run")
+
+
 def run_shard(desc, acc):
+    if desc["kind"] == "probes":
+        for pr in desc["probes"]:
+            run_probe(pr, acc)
+        return
     if desc["kind"] == "textbook":
         rng = gen.rng_for("C16t", desc["base"])
         model = hist.bundled("textbook")
